@@ -114,4 +114,19 @@ CHECKS = {
                 'layout, TruncatedGaussianModel.compute_individual_parameters) precede this check.',
         'technique': 'Coq proof (Coquelicot is_derive, chain rule, RInt-defined Phi) + CoqInterval-certified correspondence',
     },
+    'C07': {
+        'text': 'Machine-checked proof (Properties/C07.v): the shifted parameter is theta_0 + sum_c beta_c chi_c; zero '
+                'coefficients or zero covariates give the underlying parameter; d/dtheta_0 = 1, d/dbeta_c = chi_c and '
+                'hence (chain rule) the sensitivity of any differentiable score w.r.t. beta_c is (d score/d vartheta) x '
+                'chi_c; selections in any order and with duplicates are normalised to the same duplicate-free list of '
+                'exactly the selected pairs (axiom-free); the coefficient of the k-th pair and c-th covariate has a '
+                'unique flat position. Tied to /repo on every run: normalised selections and coefficient counts of real '
+                'CovariatePopulationModel objects (exact, vm_compute); log-likelihood, individual parameters and the '
+                'separate / hierarchical sensitivities over six underlying kinds certified by CoqInterval against the '
+                'term-level model with cov_shift; names, per-individual delegation and the zero cases checked directly.',
+        'note': 'Trusted: Coq kernel, stdlib, Coquelicot, CoqInterval, ' + STD_AXIOMS + ' (real-valued theorems only); '
+                'Model/Covariate.v and Model/PopModels.v hand-written; NumPy argsort stability for selections of at '
+                'most 16 pairs (the generator stays far below); sampling of covariate models is covered by C06.',
+        'technique': 'Coq proof (is_derive chain rule; sorted-unique list canonical form) + exact vm_compute and CoqInterval correspondence',
+    },
 }
